@@ -435,5 +435,4 @@ func cmdPrint(args []string) {
 	fmt.Println(xast.Print(&e, xast.Opts{Abbrev: false, Space: " "}))
 }
 
-func cmdDrive(args []string)    { fmt.Fprintln(os.Stderr, "drive: not built yet"); os.Exit(2) }
 func cmdNavcheck(args []string) { fmt.Fprintln(os.Stderr, "navcheck: not built yet"); os.Exit(2) }
